@@ -57,6 +57,7 @@ pub fn ev_place() -> impl Strategy<Value = Place> {
         2 => crate::problems::fr(0.02, 0.98).prop_map(Place::Frac),
         4 => (any::<u16>(), 0u8..9).prop_map(|(k, delta)| Place::Near { k, delta }),
         1 => (1u8..4, 0u8..9).prop_map(|(i, delta)| Place::NearIdx { i, delta }),
+        1 => Just(Place::End),
         4 => (any::<u16>(), crate::problems::fr(0.02, 0.98)).prop_map(|(k, f)| Place::Mid { k, f }),
     ]
 }
@@ -97,7 +98,10 @@ pub fn resolve_recipes(rs: &[EvRecipe], grid: &[f64], sp: &Span, sol: &dyn Fn(f6
         // strictly inside
         let lo = sp.x0.min(sp.xend) + 1e-9 * len.max(1e-3);
         let hi = sp.x0.max(sp.xend) - 1e-9 * len.max(1e-3);
-        ts = ts.max(lo).min(hi);
+        // (a root placed at the end of the span stays there: the event function is exactly zero at xend)
+        if !matches!(r.at, Place::End) {
+            ts = ts.max(lo).min(hi);
+        }
         let wrap = |g: Ev| if r.scale == 0 { g } else { Ev::Scaled { k: r.scale, g: Box::new(g) } };
         if let EvKind::Pos(w) = &r.kind {
             // subnormal range too: the strictly positive function may be scaled down to 2^-1070
